@@ -1,5 +1,5 @@
 use std::borrow::Borrow;
-use std::collections::{HashMap, HashSet};
+use std::collections::{BTreeSet, HashMap};
 
 use crate::builtin::optional::XOptionalType;
 use crate::builtin::sequence::XSequenceType;
@@ -57,7 +57,9 @@ impl From<Cell> for CellSpec {
     }
 }
 
-#[derive(Clone, Debug, Hash, Eq, PartialEq, Copy)]
+// ordered (by scope, then by declaration) so that sets of requirements are visited in a fixed order: the first
+// unfulfilled one is what an error message names
+#[derive(Clone, Debug, Hash, Eq, PartialEq, Copy, PartialOrd, Ord)]
 pub(crate) struct ForwardRefRequirement {
     ancestor_height: ScopeDepth,
     ref_idx: usize,
@@ -143,7 +145,7 @@ pub struct CompilationScope<'p, W, R, T> {
     pub(crate) cells: IPush<Cell>,
     pub(crate) declarations: Vec<Declaration<W, R, T>>,
     forwards: Vec<ForwardRef>,
-    forward_requirements: HashSet<ForwardRefRequirement>,
+    forward_requirements: BTreeSet<ForwardRefRequirement>,
 
     /// name to cell
     variables: HashMap<Identifier, usize>,
